@@ -146,6 +146,18 @@ def _has_fft_toeplitz(op: Any) -> bool:
     return bool(found)
 
 
+def _narrow_fft_kernel(op: Any) -> bool:
+    found = []
+
+    def visit(o: Any) -> None:
+        if type(o).__name__ == 'SymmetricBandToeplitzOperator' and o.method in ('fft', 'overlap_save') \
+                and np.dtype(o.band_values.dtype).itemsize < 8:
+            found.append(o)
+
+    walk(op, visit)
+    return bool(found)
+
+
 def walk(op: Any, visit: Any) -> None:
     """Visits every linear operator nested in ``op`` (operands, blocks, wrapped operators)."""
     import lineax as lx
@@ -254,6 +266,8 @@ def tol_for(*ops: Any) -> float:
                     f64 = False
         except Exception:  # noqa: BLE001
             f64 = False
+    if f64 and any(_narrow_fft_kernel(op) for op in ops if op is not None):
+        f64 = False          # the transform of a float32 kernel carries float32 rounding into float64 data (mixed precision)
     if names & SOLVER:
         return 5e-3
     inexact = bool(names & TRIG) or any(_has_fft_toeplitz(op) for op in ops if op is not None)
